@@ -463,9 +463,13 @@ def request_path(case):
         base = '/nf/x'
     else:
         base = '/h/a/t'
-    if case.get('path') == 'special':
-        base += SPECIAL_TAIL
-    return base
+    return base + PATH_TAILS.get(case.get('path'), '')
+
+
+# '%' in PATH_INFO is an ordinary character (the server has decoded the URL already): no second decoding, no
+# second dispatch
+PATH_TAILS = {'special': SPECIAL_TAIL, 'pct20': '/my%20report', 'pct2f': '/no/such%2Fpage', 'pctbad': '/100%',
+              'pct25': '/a%2520b', 'pctnul': '/x%00y'}
 
 
 def config_of(case):
@@ -1449,6 +1453,19 @@ def oracle(case, obs):
         (first_fail is None and rt['k'] == 'ok' and not any(fails(h) for h in rt['rhooks']) and crashes(rt['h']))
     if crash and first_fail_a is None and not any(c == 500 for c, _ in case['eh']) and code != 500:
         return 'handler crash answered with %d' % code
+    # ... and so does a crash of the first next() that would deliver an item of the handler's iterable
+    if first_fail is None and rt['k'] == 'ok' and not any(fails(h) for h in rt['rhooks']) and not fails(rt['h']) \
+            and first_fail_a is None and not any(c == 500 for c, _ in case['eh']):
+        o = rt['h']['res']['o']
+        if o['k'] == 'iter' and not o.get('list'):
+            for it in o['items']:
+                if it['k'] == 'yield' and (it['o']['k'] == 'falsy' or (it['o']['k'] == 'str' and not it['o']['s'])
+                                           or (it['o']['k'] == 'bytes' and not it['o']['b'])):
+                    continue
+                if is_raise(it) and not passes_by_design(exc_class(it)) and code != 500:
+                    return 'the first next() of the returned iterable raised %s, answered with %d' % (
+                        exc_class(it).__name__, code)
+                break
     return None
 
 
@@ -1742,7 +1759,7 @@ def g_case(rng, edits=True):
         fatal = dict(muts=[], res=dict(k='raise_fatal', exc=rng.choice(sorted(FATAL))))
         extra['_fatal'] = [where, fatal]
     case = dict(kind='req', method=method, fw=rng.random() < 0.4, json=rng.random() < 0.25,
-                path='special' if rng.random() < 0.2 else 'plain',
+                path='special' if rng.random() < 0.2 else rng.choice(sorted(PATH_TAILS)) if rng.random() < 0.12 else 'plain',
                 before=[g_hook(c) for _ in range(rng.choice([0, 0, 1, 2, 3]))],
                 after=[g_hook(c) for _ in range(rng.choice([0, 0, 1, 2, 3]))],
                 routing=routing, eh=eh)
@@ -1978,6 +1995,17 @@ def corpus():
             cs.append(ret(_iter(1, [f], box='gen')))
         cs.append(ret(_resp(418, hello, err=True), eh=[[418, dict(k='raise', cls=name)]]))
         cs.append(ret(hello, routing=prog(f), method='HEAD', cfg=dict(via='ctor', catchall=False, debug=False)))
+    # a path with a (valid or invalid) percent escape: routed once, as it is; every hook runs once, 404 or not
+    # (seeded change: a 404 for such a path is re-dispatched with the unquoted path from inside _handle's try/finally)
+    for pk in sorted(PATH_TAILS):
+        for rt_ in (dict(k='404', partial=None), dict(k='404', partial=dict(muts=[], res=dict(k='ret', o=hello))),
+                    dict(k='405'), None):
+            for js in (False, True):
+                c_ = ret(hello, path=pk, json=js, before=[OK_HOOK, OK_HOOK], after=[OK_HOOK, OK_HOOK])
+                if rt_ is not None:
+                    c_['routing'] = rt_
+                cs.append(c_)
+        cs.append(ret(hello, path=pk, method='HEAD', routing=dict(k='404', partial=None), before=[OK_HOOK], after=[BAD_HOOK, OK_HOOK]))
     # requests that declare a body the application will not take / malformed framing and body headers, with body limits
     # configured: no handler of the grammar reads the body, so hooks, routing and handler run as for any request
     # (seeded change: a BodyMixin.on_init refuses an oversized Content-Length inside request.__init__, before
